@@ -522,6 +522,22 @@ impl Simulation {
     }
 }
 
+#[cfg(nexosim_verif)]
+impl Simulation {
+    /// Returns the earliest deadline among the pending actions that are not
+    /// cancelled (verification only).
+    pub fn verif_next_deadline(&self) -> Option<MonotonicTime> {
+        let scheduler_queue = self.scheduler_queue.lock().unwrap();
+        let next = scheduler_queue
+            .verif_iter()
+            .filter(|(_, action)| !action.is_cancelled())
+            .map(|(key, _)| key.0)
+            .min();
+
+        next
+    }
+}
+
 impl fmt::Debug for Simulation {
     fn fmt(&self, f: &mut fmt::Formatter<'_>) -> fmt::Result {
         f.debug_struct("Simulation")
